@@ -52,6 +52,24 @@ def run(ctx, rep):
     r7(prog, ev, rep, slice_fn, slice_args)
 
 
+def fam_with_helpers(prog, fn):
+    """the function, its closures, and the private helpers it calls that the second analysis unfolds"""
+    from vflib import terms as _t
+    out = list(prog.family(fn))
+    unf = set(_t.UNFOLD or ())
+    if unf:
+        seen = set(out)
+        work = list(out)
+        while work:
+            b = work.pop()
+            for callee, _ in prog.edges().get(b, []):
+                if callee in unf and callee not in seen:
+                    for x in prog.family(callee):
+                        if x not in seen:
+                            seen.add(x); out.append(x); work.append(x)
+    return out
+
+
 def find_handlers(prog, ev, rep):
     """slice / index handler functions and the positions of their (start, end, step) / index parameters, from the
     Selector dispatch."""
@@ -112,7 +130,7 @@ def r2(prog, ev, rep, slice_fn, index_fn):
     disp = None
     for x in T.walk(prog.bodies[slice_fn]["thir"]["root"]):
         pass
-    for fam in prog.family(slice_fn):
+    for fam in fam_with_helpers(prog, slice_fn):
         for x in T.walk(prog.bodies[fam]["thir"]["root"]):
             if x.get("k") == "Match" and sum(1 for a in x["arms"] if "guard" in a) >= 2:
                 disp = (fam, x)
@@ -220,11 +238,30 @@ def r4(ctx, prog, ev, rep, slice_fn, slice_args):
     startname = c08._pname(prog, slice_fn, slice_args[0])
     endname = c08._pname(prog, slice_fn, slice_args[1])
     disp_ok = False
-    for fam in prog.family(slice_fn):
+    for fam in fam_with_helpers(prog, slice_fn):
         for x in T.walk(prog.bodies[fam]["thir"]["root"]):
             if x.get("k") == "Match" and sum(1 for a in x["arms"] if "guard" in a) >= 2:
                 names = {y["var"]["name"] for y in T.walk(x["scrut"]) if y.get("k") in ("Var", "Upvar")}
                 disp_ok = names == {stepname}
+    if not disp_ok:
+        # term level (helper boundaries and variable names do not matter): the guards of the two walks are `step.unwrap_or(1) > 0`
+        # and `< 0` over the handler's own step parameter
+        try:
+            EV[0] = ev
+            names = {}
+            for slot, nm in ((0, "start"), (1, "end"), (2, "step")):
+                i = slice_args[slot]
+                names[Tm("param", (i, c08._pname(prog, slice_fn, i)))] = nm
+            sites = ev.sited(slice_fn)
+            gets = [s_ for s_ in sites if s_["kind"] == "call" and (s_["term"].a[0] in ("core::slice::<impl [T]>::get",) or s_["term"].a[0].endswith("Index<I>>::index"))]
+            arr = gets[-1]["term"].a[1] if gets else None
+            ab = []
+            ws = loop_walks(prog, ev, sites, names, arr, gets, ab) + range_walks(prog, ev, sites, names, arr, ab)
+            mdl = rfc_model()
+            gs = sorted(repr(w["guard"]) for w in ws)
+            disp_ok = len(ws) == 2 and gs == sorted([repr(mdl["pos"]["guard"]), repr(mdl["neg"]["guard"])])
+        except Exception:
+            disp_ok = False
     rep.check(disp_ok, "C11-R4", "%s|dispatch-on-step" % slice_fn, prog.loc_of(slice_fn), "sign dispatch reads the step",
               "the sign dispatch does not read (only) the step parameter `%s`" % stepname)
 
@@ -887,11 +924,37 @@ def index_region_check(prog, ev, rep, index_fn, index_args, int_bounds):
     stats = {"sites": len(sites), "queries": 0}
     site_guards = []
     problems = []
+    # an index computed as an Option by a conditional (`a[pick(i, len)?]`): one virtual site per `Some(x)` leaf
+    vsites = []
     for s, filtered in sites:
+        raw = s["term"].a[2]
+        while raw.k == "cast":
+            raw = raw.a[1]
+        if raw.k == "try":
+            raw = Tm("proj", (raw.a[0], "Option::Some.0"))
+        if raw.k == "proj" and raw.a[1] == "Option::Some.0" and raw.a[0].k in ("if", "match"):
+            def walk(t, extra, out):
+                if t.k == "if":
+                    walk(t.a[1], extra + (("if", t.a[0], True),), out)
+                    walk(t.a[2], extra + (("if", t.a[0], False),), out)
+                elif t.k == "adt" and t.a[1] == "Some":
+                    out.append((extra, t.a[2][0][1]))
+                elif t.k == "adt" and t.a[1] == "None":
+                    pass
+                else:
+                    raise pwl.Undecided("index computed by `%s`" % str(t)[:80])
+            out = []
+            walk(raw.a[0], (), out)
+            for extra, v in out:
+                vsites.append((s, filtered, tuple(s["pc"]) + extra, v))
+        else:
+            vsites.append((s, filtered, tuple(s["pc"]), s["term"].a[2]))
+    stats["sites"] = len(vsites)
+    for s, filtered, pcs, ixterm in vsites:
         arr = s["term"].a[1]
-        ix = substitute(norm(prog, s["term"].a[2], inames, arr), "i", I)
+        ix = substitute(norm(prog, ixterm, inames, arr), "i", I)
         guards = []
-        for c in s["pc"]:
+        for c in pcs:
             if c[0] == "if":
                 if c[1].k != "bin":
                     raise pwl.Undecided("guard `%s`" % str(c[1])[:80])
